@@ -348,6 +348,21 @@ theorem oracles_sound (rev : Bool) (xs ys : List (List Nat × List Nat)) (exts c
           j ∈ (if rev = true then monoLowerCovers exts i else lowerCovers exts i))) :=
   ⟨sameSet_iff xs ys, coverOK_iff rev exts children⟩
 
+/-- soundness of the further oracles used on lattices after a history of queries / mutations and
+    on large tables: `relOK strictDown` / `relOK strictUp` decide "rel[i] = all strictly smaller /
+    larger elements", `relOK upperCovers` decides "rel[i] = upper covers of i", and the cheap
+    enumeration `monoConceptsFast` lists exactly the monotone concepts. -/
+theorem order_oracles_sound (f : List (List Nat) → Nat → List Nat) (exts rel : List (List Nat))
+    (t : Table) (hwf : t.WF) (A B : List Nat) :
+    (relOK f exts rel = true ↔
+      rel.length = exts.length ∧ ∀ i, i < exts.length → ∀ j, (j ∈ rel.getD i [] ↔ j ∈ f exts i)) ∧
+    (∀ i j, j ∈ strictDown exts i ↔ j < exts.length ∧ ssubset (exts.getD j []) (exts.getD i []) = true) ∧
+    (∀ i j, j ∈ strictUp exts i ↔ j < exts.length ∧ ssubset (exts.getD i []) (exts.getD j []) = true) ∧
+    ((A, B) ∈ monoConceptsFast t ↔ (A = extMonoAll t B ∧ B = intMonoAll t A)) := by
+  refine ⟨relOK_iff f exts rel, mem_strictDown exts, mem_strictUp exts, ?_⟩
+  rw [mem_monoConceptsFast t hwf, isMonoConcept_iff]
+  exact ⟨fun ⟨a, b⟩ => ⟨a.symm, b.symm⟩, fun ⟨a, b⟩ => ⟨a.symm, b.symm⟩⟩
+
 /-! ### non-vacuity: the hypotheses are met by a concrete, non-trivial context -/
 
 private def exK : Ctx :=
